@@ -19,7 +19,7 @@ ASSUMPTIONS = TRUSTED + ["sequences of operations are not explored: each step's 
                          "sort_values, drop_duplicates) is trusted"]
 
 M = "cryomotl.Motl."
-A = {"isinstance(feature_values, list)": False, "reset_index": True, "return_df": False,
+A = {"isinstance(feature_values, list)": False, "isinstance(feature_values, (list, np.ndarray))": False, "reset_index": True, "return_df": False,
      "not isinstance(motl_list, list) or len(motl_list) == 0": False, "m is None": False, "not motl.df.empty": True, "motl.df.empty": False,
      "write_out": False}
 
@@ -431,10 +431,52 @@ def o82(ctx):
                     raise Unsupported("renumber_objects_sequentially: data-dependent shortcut before the per-tomogram renumbering", p_)
 
 
+def o86(ctx):
+    """selection and removal are complementary for every form of `feature_values`: the two siblings must agree on what they take for a LIST of
+    values (iterate it) and what for ONE value (wrap it).  Cross-check of the two type tests, resolved through the module's imports"""
+    def seq_types(q, pname="feature_values"):
+        m, fn = ctx.prog.func(q)
+        params = [a.arg for a in fn.args.posonlyargs + fn.args.args + fn.args.kwonlyargs]
+        if pname not in params:
+            raise Unsupported(f"{q}: no parameter {pname}", fn)
+        # a normalisation that accepts every array-like: np.atleast_1d(p) / np.asarray(p).ravel() / np.ravel(p)
+        for c in ast.walk(fn):
+            if isinstance(c, ast.Call) and any(isinstance(a, ast.Name) and a.id == pname for a in c.args[:1]):
+                d = ctx.prog.resolve(m, c.func) or ""
+                if d in ("numpy.atleast_1d", "numpy.ravel"):
+                    return None, fn, m
+        found = []
+        for c in ast.walk(fn):
+            if isinstance(c, ast.Call) and isinstance(c.func, ast.Name) and c.func.id == "isinstance" and len(c.args) == 2 \
+                    and isinstance(c.args[0], ast.Name) and c.args[0].id == pname:
+                ts = c.args[1].elts if isinstance(c.args[1], ast.Tuple) else [c.args[1]]
+                names = set()
+                for t in ts:
+                    d = ctx.prog.resolve(m, t)
+                    names.add(d if d else " ".join(ast.unparse(t).split()))
+                found.append((c, frozenset(names)))
+        if len(found) != 1:
+            raise Unsupported(f"{q}: the test that tells one value from a list of values is not recognised ({len(found)} isinstance tests on {pname})", fn)
+        return found[0][1], found[0][0], m
+    qa, qb = M + "get_motl_subset", M + "remove_feature"
+    ctx.touched(qa, qb)
+    ta, na, ma = seq_types(qa)
+    tb, nb, mb = seq_types(qb)
+    ctx.count(2, {"get_motl_subset iterates": sorted(ta) if ta is not None else "every array-like", "remove_feature iterates": sorted(tb) if tb is not None else "every array-like"})
+    if ta == tb:
+        return
+    more, less, node, mod, qq = (tb, ta, na, ma, qa) if (ta is not None and (tb is None or len(tb - ta) >= len(ta - tb))) else (ta, tb, nb, mb, qb)
+    missing = sorted((more or {"every array-like"}) - (less or set()))
+    ctx.finding(qq, "what counts as a list of values", f"selection and removal must be complementary for every form of feature_values: {qq.split('.')[-1]} takes "
+                f"{', '.join(missing)} for ONE value (compares the column with the whole container, element by element) while its sibling iterates it -- "
+                "`get_motl_subset(np.array([3, 2, 1]))` on a three-row list returns the rows where row k equals value k", node, mod)
+
+
 def _obligations():
     return [
         Obligation("O8.1", "subset ==, removal != (exact complement), split partition, intersection semi-join; schema and inputs untouched", o81, floor=10),
         Obligation("O8.2", "reset_index(drop=True) on every particle table; object renumbering keeps the 20 fields under the installed pandas", o82, floor=15),
+        Obligation("O8.6", "selection and removal agree on what is ONE value and what a LIST of values (sibling cross-check)", o86, floor=2),
         Obligation("O8.4", "renumber 1..N; de-duplication order; merges: disjoint object ranges incl. the tie, grouping kept, write-sets", o84, floor=25),
     ]
 
